@@ -83,6 +83,15 @@ def rule_writer(ctx, R):
     # digit = num % base ; num /= base, same base, base = new(param as isize)
     org = Origins(b, fb)
     roles = Roles(b, fb, param_roles=PR(b))
+    # the digits are those of the magnitude: the working copy is made non-negative before the loop
+    sets_ = []
+    for bi_, blk_ in enumerate(b.blocks):
+        if blk_["cleanup"]:
+            continue
+        for si_, st_ in enumerate(blk_["stmts"]):
+            if st_["k"] == "assign" and any(isinstance(e, dict) and e.get("n") == "pos" for e in st_["p"]["proj"]):
+                sets_.append((roles.of_origin(org.of_rvalue(st_["r"], bi_, si_)), bi_ in loop, st_["span"]["at"]))
+    R.check(sets_ == [("K1", False, sets_[0][2])] if sets_ else False, "writer:magnitude", "the number that is divided down is the magnitude (its sign flag is set to non-negative once, before the loop): %s" % [(a, l) for a, l, _ in sets_], b.span)
     # the loop runs while the remaining number is not zero
     evw = Events(b, fb, roles=roles)
     stay, leave = [], []
